@@ -58,6 +58,20 @@ static int ci_compare(const ldb_comparator_t *c, const ldb_slice_t *x, const ldb
   return x->size < y->size ? -1 : (x->size > y->size ? 1 : 0);
 }
 static const ldb_comparator_t ci_comparator = { "verif.CaseFold", ci_compare, NULL, NULL, NULL, NULL };
+/* comparators used only for opens that must be refused: their names extend, or are a prefix of, the name the database
+   was created with, and their order differs from it */
+static const ldb_comparator_t bw2_comparator = { "leveldb.BytewiseComparator.v2", rev_compare, NULL, NULL, NULL, NULL };
+static const ldb_comparator_t bwp_comparator = { "leveldb.Bytewise", rev_compare, NULL, NULL, NULL, NULL };
+static const ldb_comparator_t rev2_comparator = { "verif.ReverseBytewise.v2", len_compare, NULL, NULL, NULL, NULL };
+static const ldb_comparator_t revp_comparator = { "verif.Reverse", len_compare, NULL, NULL, NULL, NULL };
+static const ldb_comparator_t *parse_cmp2(const char *s) {
+  if (!strcmp(s, "ci")) return &ci_comparator;
+  if (!strcmp(s, "bw2")) return &bw2_comparator;
+  if (!strcmp(s, "bwp")) return &bwp_comparator;
+  if (!strcmp(s, "rev2")) return &rev2_comparator;
+  if (!strcmp(s, "revp")) return &revp_comparator;
+  return parse_cmp(s);
+}
 static void print_key(FILE *out, const void *p, size_t n) {
   const uint8_t *b = p; size_t i;
   if (!g_fold) { print_hex(out, p, n); return; }
@@ -286,7 +300,7 @@ static int parse_opts(char **f, int nf, int from) {
     char *eq = strchr(f[i], '='); long v;
     if (!eq) return 0;
     *eq = 0; v = atol(eq + 1);
-    if (!strcmp(f[i], "cmp")) { const ldb_comparator_t *c = !strcmp(eq + 1, "ci") ? &ci_comparator : parse_cmp(eq + 1); if (!c) return 0; g_opt.comparator = c; g_fold = c == &ci_comparator; g_cmpname = !strcmp(eq + 1, "rev") ? "rev" : (!strcmp(eq + 1, "len") ? "len" : (g_fold ? "ci" : "bw")); }
+    if (!strcmp(f[i], "cmp")) { const ldb_comparator_t *c = parse_cmp2(eq + 1); if (!c) return 0; g_opt.comparator = c; g_fold = c == &ci_comparator; g_cmpname = !strcmp(eq + 1, "rev") ? "rev" : (!strcmp(eq + 1, "len") ? "len" : (g_fold ? "ci" : (!strcmp(eq + 1, "bw") ? "bw" : "other"))); }
     else if (!strcmp(f[i], "wbuf")) g_opt.write_buffer_size = v;
     else if (!strcmp(f[i], "block")) g_opt.block_size = v;
     else if (!strcmp(f[i], "restart")) g_opt.block_restart_interval = v;
@@ -540,12 +554,12 @@ static void handle(char *line) {
     int rc;
     if (g_db) { printf("err already open\n"); return; }
     snprintf(g_dir, sizeof(g_dir), "%s", f[1]);
-    { ldb_dbopt_t prev = g_opt; const char *prevcmp = g_cmpname;
+    { ldb_dbopt_t prev = g_opt; const char *prevcmp = g_cmpname; int prevfold = g_fold;
     if (!parse_opts(f, nf, 2)) { printf("err bad opts\n"); return; }
     if (g_journal) { snprintf(g_jroot, sizeof(g_jroot), "%s", g_dir); jmark("open-begin"); }
     rc = ldb_open(g_dir, &g_opt, &g_db);
     if (g_journal) jmark("open-end %d", rc);
-    if (rc != LDB_OK) { g_db = NULL; if (prevcmp) { g_opt = prev; g_cmpname = prevcmp; } } }
+    if (rc != LDB_OK) { g_db = NULL; if (prevcmp) { g_opt = prev; g_cmpname = prevcmp; g_fold = prevfold; } } }
     flush_bg_events();
     printf("open %d cmp=%s\n", rc, g_cmpname);
     if (g_journal) jprint_new();
@@ -572,13 +586,13 @@ static void handle(char *line) {
     printf("lockprobe %d\n", WIFEXITED(st) ? WEXITSTATUS(st) : 98);
   } else if (nf >= 2 && !strcmp(f[0], "open2")) {
     /* open2 <dir> [opts]: a second ldb_open while the first handle (if any) stays open; the handle is closed at once */
-    ldb_t *db2 = NULL; ldb_dbopt_t save = g_opt; const char *savecmp = g_cmpname; int rc;
-    if (!parse_opts(f, nf, 2)) { printf("err bad opts\n"); g_opt = save; return; }
+    ldb_t *db2 = NULL; ldb_dbopt_t save = g_opt; const char *savecmp = g_cmpname; int rc; int savefold = g_fold;
+    if (!parse_opts(f, nf, 2)) { printf("err bad opts\n"); g_opt = save; g_fold = savefold; g_cmpname = savecmp; return; }
     if (g_journal) jmark("open2-begin");
     rc = ldb_open(f[1], &g_opt, &db2);
     if (g_journal) jmark("open2-end %d", rc);
     if (rc == LDB_OK) ldb_close(db2);
-    g_opt = save; g_cmpname = savecmp;
+    g_opt = save; g_cmpname = savecmp; g_fold = savefold;
     flush_bg_events_discard();
     printf("open2 %d\n", rc);
     if (g_journal) jprint_new();
@@ -586,7 +600,7 @@ static void handle(char *line) {
     int rc;
     if (!g_db) { printf("err not open\n"); return; }
     rc = ldb_backup(g_db, f[1]);
-    printf("backup %d %s\n", rc, f[1]);
+    printf("backup %d %s%s\n", rc, f[1], !strcmp(f[1], g_dir) ? " self" : "");
     after_op();
   } else if (nf == 2 && !strcmp(f[0], "bcheck")) {
     /* bcheck <dir>: open the backup/copy as an independent database, dump everything a reader can see, close */
